@@ -292,6 +292,7 @@ Lemma denote_repr p L :
   exists l, okbl (bits p) l /\ p = pk (bits p) l /\ L = map (decode (N.ones (bits p))) l.
 Proof.
   intro H. pose proof (denote_wf p L H) as Hw.
-  destruct (wf_repr p Hw) as [Hok Hp]. exists (slots p). repeat split; try assumption.
+  destruct (wf_repr p Hw) as [Hok Hp]. exists (slots p).
+  split; [assumption|]. split; [assumption|].
   unfold denote in H. rewrite Hw in H. injection H as <-. reflexivity.
 Qed.
